@@ -403,6 +403,37 @@ func ruleComposeDecompose(w *World, r *RuleResult) {
 			d2b[form] = ci(k)
 		}
 	}
+	// finite case: sign and exponent are the value's own
+	{
+		key := "Decompose | finite case returns d.Negative and d.Exponent"
+		var bad []string
+		n := 0
+		fin := forms["Finite"]
+		for _, p := range paths {
+			finite := false
+			for _, d := range p.Decisions {
+				if bo, ok := d.Cond.(*ssa.BinOp); ok && bo.Op == token.EQL && d.Val && w.exprOf(dec, bo.X).String() == "d.Form" {
+					if k, ok := bo.Y.(*ssa.Const); ok && ci(k) == fin {
+						finite = true
+					}
+				}
+			}
+			if !finite || len(p.Ret.Results) != 4 {
+				continue
+			}
+			n++
+			neg := w.exprOf(dec, phiOnPath(p.Ret.Results[1], p)).String()
+			exp := w.exprOf(dec, phiOnPath(p.Ret.Results[3], p)).String()
+			if neg != "d.Negative" || exp != "d.Exponent" {
+				bad = append(bad, fmt.Sprintf("return at %s yields negative=%s exponent=%s", w.instrPos(p.Ret), neg, exp))
+			}
+		}
+		if len(bad) > 0 || n == 0 {
+			r.bad(key, w.pos(dec.Pos()), "a finite value is decomposed with a sign or exponent that is not its own: "+strings.Join(uniqStrings(bad), "; "))
+		} else {
+			r.ok(key, w.pos(dec.Pos()), fmt.Sprintf("%d finite paths, each returning d.Negative and d.Exponent", n), true)
+		}
+	}
 	// Compose: form byte -> Form stored
 	b2f := map[int64]int64{}
 	cp, ok := enumPaths(com, 512)
@@ -496,6 +527,15 @@ func ruleFloatPath(w *World, r *RuleResult) {
 			bits, _ := cs[0].Common().Args[1].(*ssa.Const)
 			if bits != nil && ci(bits) == 64 && strings.HasPrefix(w.exprOf(f, cs[0].Common().Args[0]).String(), "(*Decimal).String(d") {
 				ok = true
+			}
+		}
+		if ok {
+			for _, b := range f.Blocks {
+				if rt, isRet := b.Instrs[len(b.Instrs)-1].(*ssa.Return); isRet {
+					if !seenBefore(rt, func(in ssa.Instruction) bool { return in == ssa.Instruction(cs[0]) }) {
+						ok = false
+					}
+				}
 			}
 		}
 		if ok {
